@@ -1,2 +1,34 @@
+import LapyVerif.Props.C12
 import LapyVerif.Model.Refine
 import LapyVerif.Model.TetTopo
+/- axiom audit of C12 (`TetMesh.is_oriented`, `orient_`, `boundary_tria`) -/
+#print axioms LapyVerif.Props.C12.isOriented_nil
+#print axioms LapyVerif.Props.C12.isOriented_iff
+#print axioms LapyVerif.Props.C12.signedVol_swap
+#print axioms LapyVerif.Props.C12.orient_fst
+#print axioms LapyVerif.Props.C12.orient_snd
+#print axioms LapyVerif.Props.C12.orient_spec
+#print axioms LapyVerif.Props.C12.orient_oriented
+#print axioms LapyVerif.Props.C12.orient_of_no_neg
+#print axioms LapyVerif.Props.C12.orient_idempotent
+#print axioms LapyVerif.Props.C12.allFaces_length
+#print axioms LapyVerif.Props.C12.sort3_spec
+#print axioms LapyVerif.Props.C12.mem_boundaryFaces_iff
+#print axioms LapyVerif.Props.C12.boundaryFaces_spec
+#print axioms LapyVerif.Props.C12.boundaryFaces_nodup
+#print axioms LapyVerif.Props.C12.boundaryFaces_sorted
+#print axioms LapyVerif.Props.C12.bnd_owner
+#print axioms LapyVerif.Props.C12.bnd_outward
+#print axioms LapyVerif.Props.C12.bnd_outward'
+#print axioms LapyVerif.Props.C12.bnd_outward_mesh
+#print axioms LapyVerif.Props.C12.face_volume_sum
+#print axioms LapyVerif.Props.C12.face_reverse
+#print axioms LapyVerif.Props.C12.cone_oddPerm
+#print axioms LapyVerif.Props.C12.oppositeShared_iff
+#print axioms LapyVerif.Props.C12.bnd_volume_cone
+#print axioms LapyVerif.Props.C12.bnd_volume
+#print axioms LapyVerif.Props.C12.bnd_closed_edges
+#print axioms LapyVerif.Props.C12.isClosed_of_even
+#print axioms LapyVerif.Props.C12.bnd_closed
+#print axioms LapyVerif.Props.C12.ts2_oriented
+#print axioms LapyVerif.Props.C12.ts2_boundary
